@@ -37,11 +37,15 @@ def run(tier):
     # structural check on every error-free tree
     srcs = [p["src"] for p in inputs.clean_programs(tier)] + [c["src"].decode("latin-1") for c in lexgen.cases(check, tier, rng)]
     srcs += [s.replace("\n", "\r\n") for s in srcs[:400]] + [s.replace("\n", "\r") for s in srcs[:200]]
+    # every (type, &, ..., default) shape of a parameter in every kind of signature; long lists, constructs nested in themselves
+    sigs = inputs.signature_programs()
     srcs = list(dict.fromkeys(srcs))
     # sources with tens of thousands of nodes: their positions come out of 1024-entry pool blocks
     scaled = progs.scaled_sources(check, "5", core.seed(), 700 if tier == "quick" else 4000, (300,))
     check.cov["scaled_sources_bytes"] = [len(x) for x in scaled]
     tasks = [{"op": "analyze", "src": s, "ver": v, "limit_ms": 2000 + len(s) // 10} for s in srcs + scaled for v in ("7.4", "5.6")]
+    tasks += [{"op": "analyze", "src": p["src"], "ver": p["ver"], "limit_ms": 4000} for p in sigs]
+    tasks += [{"op": "analyze", "src": p["src"], "ver": p["ver"], "limit_ms": 4000 + len(p["src"]) // 10} for p in inputs.programs(check, tier) if "used" in p]
     ntrees = 0
     for t, r in zip(tasks, wp.run(tasks)):
         check.count()
